@@ -535,7 +535,8 @@ expandfunc(struct macro *m)
 				.lit = str.val,
 			};
 		}
-		if (t->kind == TRPAREN)
+		/* a comma that ends the argument for the last parameter begins one argument too many */
+		if (t->kind == TRPAREN || i + 1 == m->nparam)
 			break;
 		argnext(t);
 	}
